@@ -213,6 +213,28 @@ func (k *ckRunner) tryLoad(cfg SysCfg, path, bid string, muts []Mut) (string, st
 	return "accepted", ""
 }
 
+// appendLyingEntry rewrites the archive so that its LAST entity entry's header declares
+// `size` bytes although only a few follow.
+func appendLyingEntry(path string, entries []tarEntry, size int64) error {
+	var buf bytes.Buffer
+	gz := gzip.NewWriter(&buf)
+	tw := tar.NewWriter(gz)
+	for i, e := range entries {
+		last := i == len(entries)-1
+		h := &tar.Header{Name: e.Name, Mode: 0o600, Size: int64(len(e.Data)), Typeflag: tar.TypeReg, Format: tar.FormatPAX}
+		if last {
+			h.Size = size
+		}
+		if err := tw.WriteHeader(h); err != nil {
+			return err
+		}
+		_, _ = tw.Write(e.Data)
+	}
+	_ = tw.Flush() // no Close: the writer would complain about the missing bytes
+	_ = gz.Close()
+	return os.WriteFile(path, buf.Bytes(), 0o644)
+}
+
 func registerCkptMut() {
 	reg.Register("ckpt_mut", func(raw json.RawMessage) (any, error) {
 		var in struct {
@@ -301,6 +323,7 @@ func registerCkptMut() {
 				bid := buildID
 				path := ck
 				truncate := false
+				hugeEntry, shortEntry := false, false
 				ok := true
 				for _, m := range c.Mutations {
 					switch {
@@ -308,6 +331,10 @@ func registerCkptMut() {
 						bid = "another-build"
 					case m == "gz_truncated":
 						truncate = true
+					case m == "huge_entry_size":
+						hugeEntry = true
+					case m == "entry_size_beyond_data":
+						shortEntry = true
 					case configMutations[m]:
 						muts = append(muts, mutFor(m, cfg))
 					default:
@@ -324,6 +351,17 @@ func registerCkptMut() {
 				path = filepath.Join(dir, "mut.ckpt")
 				if err := writeArchive(path, es); err != nil {
 					return nil, err
+				}
+				if hugeEntry || shortEntry {
+					// a tar header that declares more bytes than the stream holds (raw stream: the
+					// tar writer itself refuses to produce this)
+					size := int64(1) << 62
+					if shortEntry {
+						size = 1 << 20
+					}
+					if err := appendLyingEntry(path, es, size); err != nil {
+						return nil, err
+					}
 				}
 				if truncate {
 					b, _ := os.ReadFile(path)
